@@ -163,9 +163,28 @@ def strip_comments(src):
     return "".join(out)
 
 
-def source_grep():
+def import_closure(mods):
+    """the JPV source files the given modules depend on (transitively, by their `import JPV.…` lines)"""
+    seen, todo = {}, list(mods)
+    while todo:
+        m = todo.pop()
+        if m in seen or not m.startswith("JPV"):
+            continue
+        path = os.path.join(LEAN, *m.split(".")) + ".lean"
+        if not os.path.exists(path):
+            continue
+        seen[m] = path
+        for im in re.findall(r"^\s*(?:public\s+)?import\s+([A-Za-z0-9_.']+)", open(path).read(), re.M):
+            todo.append(im)
+    return sorted(seen.values())
+
+
+def source_grep(mods=None):
+    # only the sources the property's modules are built from: files nobody imports prove nothing
+    # (and other people's unfinished files must not take a check down)
     hits = []
-    for path in glob.glob(os.path.join(LEAN, "JPV", "**", "*.lean"), recursive=True):
+    paths = import_closure(mods) if mods else glob.glob(os.path.join(LEAN, "JPV", "**", "*.lean"), recursive=True)
+    for path in paths:
         txt = strip_comments(open(path).read())
         # string literals may legitimately contain the words (e.g. action bodies): drop them
         txt = re.sub(r'"(?:[^"\\]|\\.)*"', '""', txt)
@@ -194,7 +213,7 @@ def prove(prop, cfg, log, thorough=False, gen_failed=None):
         res["failed"] = obls
         log.append(out)
         return res
-    hits = source_grep()
+    hits = source_grep(mods)
     if hits:
         res["ok"] = False
         res["detail"] = "forbidden construct in Lean sources: " + "; ".join(hits[:10])
@@ -211,7 +230,7 @@ def prove(prop, cfg, log, thorough=False, gen_failed=None):
     os.remove(audit)
     # parse: "'name' depends on axioms: [a, b]" or "'name' does not depend on any axioms"
     seen = {}
-    for m in re.finditer(r"'([^']+)' (does not depend on any axioms|depends on axioms: \[([^\]]*)\])", out, re.S):
+    for m in re.finditer(r"'([^\s']+'*)' (does not depend on any axioms|depends on axioms: \[([^\]]*)\])", out, re.S):
         name = m.group(1)
         axs = [a.strip() for a in (m.group(3) or "").replace("\n", " ").split(",") if a.strip()]
         seen[name] = axs
